@@ -1,7 +1,7 @@
 (* C14, PostgreSQL part — a table prefix renames tables (and the table part of derived names) and nothing else:
    the generator is equivariant under the literal renaming of the project.  Pinned statements only; the tie to the
    code is K-sql(pg). *)
-From VV.M1 Require Import PrefixP PrefixApplyP.
+From VV.M1 Require Import PrefixHyp PrefixP PrefixApplyP.
 From VV.PG Require Import PrefixPlanP WitnessP.
 
 (* one action, all 13 builders *)
@@ -23,6 +23,38 @@ Print Assumptions C14_pg_gen_plan_equivariant.
 Check C14_pg_gen_plan_equivariant : forall p, no_dot p -> forall acts s, side_plan p s acts = true ->
   gen_plan (literal_schema p s) (map (literal_action p) acts)
   = match gen_plan s acts with Ok qs => Ok (map (map (rename_stmt p)) qs) | Err e => Err e end.
+
+(* MigrationPlan::with_prefix itself (after the D10 repair it also prefixes inline foreign_key targets): the SQL of the
+   prefixed plan on the literally renamed baseline is the renamed SQL, when the inline references parse *)
+Theorem C14_pg_with_prefix_gen_plan : forall p pl s, p <> "" -> no_dot p ->
+  forallb inline_fks_parse (p_actions pl) = true -> side_plan p s (p_actions pl) = true ->
+  gen_plan (literal_schema p s) (p_actions (plan_with_prefix p pl))
+  = match gen_plan s (p_actions pl) with Ok qs => Ok (map (map (rename_stmt p)) qs) | Err e => Err e end.
+Proof. exact with_prefix_gen_plan. Qed.
+Print Assumptions C14_pg_with_prefix_gen_plan.
+Check C14_pg_with_prefix_gen_plan : forall p pl s, p <> "" -> no_dot p ->
+  forallb inline_fks_parse (p_actions pl) = true -> side_plan p s (p_actions pl) = true ->
+  gen_plan (literal_schema p s) (p_actions (plan_with_prefix p pl))
+  = match gen_plan s (p_actions pl) with Ok qs => Ok (map (map (rename_stmt p)) qs) | Err e => Err e end.
+
+Theorem C14_pg_with_prefix_gen : forall p s a P P', p <> "" -> no_dot p -> inline_fks_parse a = true -> side_pg s a = true ->
+  gen (literal_schema p s) P' (action_with_prefix p a)
+  = match gen s P a with Ok q => Ok (map (rename_stmt p) q) | Err e => Err e end.
+Proof. exact with_prefix_gen. Qed.
+Print Assumptions C14_pg_with_prefix_gen.
+Check C14_pg_with_prefix_gen : forall p s a P P', p <> "" -> no_dot p -> inline_fks_parse a = true -> side_pg s a = true ->
+  gen (literal_schema p s) P' (action_with_prefix p a)
+  = match gen s P a with Ok q => Ok (map (rename_stmt p) q) | Err e => Err e end.
+
+(* the repaired behaviour on the D10 witness: the inline reference "user.id" now yields REFERENCES "app_user" *)
+Example ex_d10_fixed :
+  gen [] [] (action_with_prefix "app_" (CreateTable "post"
+     [mkCol "id" (TSimple Integer) false None None (Some (PKBool true)) None None None;
+      mkCol "user_id" (TSimple Integer) true None None None None None (Some (FKStr "user.id"))] []))
+  = Ok [SCreateTable "app_post"
+          [mkCd "id" (mkTy "integer" false) true None false; mkCd "user_id" (mkTy "integer" false) false None false]
+          [["id"]] [mkFk (Some "fk_app_post__user_id") ["user_id"] "app_user" ["id"] None None] []].
+Proof. vm_compute. reflexivity. Qed.
 
 (* the renaming touches table names and the table part of derived names only *)
 Theorem C14_pg_names : forall p t cols key e,
